@@ -47,6 +47,13 @@ def check(repo: Repo, R) -> None:
     from . import c11 as _c11
     R.run(_c11.inverse_tables, repo, shared.Retag(R, lambda r, k: "C13.5-ideal-primitives-agree-with-reader" if "export_primitive_params" in k else None,
                                                  "a pulse source's fall time is exported as its rise time (or under another VLSIR name): the instance carries a value that was not given for that parameter"))
+    # the values given by keyword are the values of the parameter object: nothing is filtered on the way (C09.1 clause)
+    from . import c09 as _c09
+    R.run(_c09.cache_discipline, repo, shared.Retag(R, lambda r, k: "C13.2-none-omitted" if "call.py" in k or "param_call" in k else None,
+                                                    "`Vdc(dc=None)` by keyword silently becomes the default: the exporter's None rule can no longer omit the parameter, and `dc=0` appears on the instance"))
+    # ... and on import the documented renaming is applied before anything is selected by Hdl21 name (C11.2 clause)
+    R.run(_c11.absent_means_none, repo, shared.Retag(R, lambda r, k: "C13.5-ideal-primitives-agree-with-reader" if "renamed-before-selected" in k else None,
+                                                     "a pulse source's Literal delay is re-exported as a prefixed number"))
     # parameter dictionaries are built from the live parameter object on every export: nothing about an earlier one is kept
     st_ = shared.cross_call_state(repo.file(F_EXPORT).tree)
     R.check(not st_, "C13.7-no-memoisation-by-value", f"{F_EXPORT}::state", F_EXPORT, f"{F_EXPORT} remembers nothing from one export to the next" if not st_ else f"state kept between exports: {st_}",
